@@ -155,6 +155,9 @@ SolveResult minimize(auto && f, auto && x, auto && cb, const MinimizeOptions & o
         status = SolveResult::Status::Ftol;
       } else if (d.cwiseProduct(dx).stableNorm() < opts.ptol * static_cast<double>(dx.size())) {
         status = SolveResult::Status::Ptol;
+      } else if (r_n == 0) {
+        // residual is exactly zero: nothing left to reduce (the reduction ratios are not defined here)
+        status = SolveResult::Status::Ftol;
       }
     }
     SMOOTH_VERIF_MINIMIZE_ITER(iter, r_n, pred_red, actu_red, rho, Delta, take_step, verif_stepped, status.has_value());
